@@ -17,7 +17,7 @@ RULE = ('case = (object kind, payload size/pattern, headers, line ending, input 
         'present, or a corruption that the reference confirms changes payload or CRC; distinct = distinct case descriptors')
 ASSUMPTIONS = ['binascii radix-64 primitive', 'vf.ref.armor CRC-24 follows RFC 4880 6.1 (validated on the repository fixtures by oracle_selftest)']
 MIN_COUNTERS = {'armor_checked': 250, 'corruptions_judged': 1000, 'kind_confusion': 6, 'load_compared': 300}
-BUDGET = {'quick': (150, 600), 'thorough': (1500, 3600)}
+BUDGET = {'quick': (600, 1500), 'thorough': (1500, 3600)}
 
 B64 = 'ABCDEFGHIJKLMNOPQRSTUVWXYZabcdefghijklmnopqrstuvwxyz0123456789+/'
 LABEL = {'pub': 'PUBLIC KEY BLOCK', 'priv': 'PRIVATE KEY BLOCK', 'msg': 'MESSAGE', 'sig': 'SIGNATURE', 'clear': 'SIGNED MESSAGE'}
